@@ -20,12 +20,13 @@ Presets == {"none", "future", "past"}
 AtHash(f) == f \in {"code", "implicit_idt_token", "hybrid_code_idt_token", "refresh", "refresh_hybrid", "device"}   \* an access token is delivered in the same response
 CHash(f) == f \in {"hybrid_code_idt", "hybrid_code_idt_token"}                                    \* a code is delivered in the same response
 
-RowsA == { [tbl |-> "A", flow |-> f, openid |-> o, subject |-> s, key |-> k, preset |-> p,
+\* session_aud: the application's session already names an audience of its own; the requesting client is named all the same
+RowsA == { [tbl |-> "A", flow |-> f, openid |-> o, subject |-> s, key |-> k, preset |-> p, session_aud |-> sa,
             issued |-> o /\ s # "" /\ p # "past",
             alg |-> Alg(k), hash_bits |-> HashBits(k), at_hash |-> AtHash(f), c_hash |-> CHash(f),
             undet |-> k = "jwk_es384_nohdr"] :
-            f \in Flows, o \in BOOLEAN, s \in {"peter", ""}, k \in Keys, p \in Presets }
-ValidA == { r \in RowsA : (r.key # "rsa" => (r.openid /\ r.subject # "" /\ r.preset = "none")) }
+            f \in Flows, o \in BOOLEAN, s \in {"peter", ""}, k \in Keys, p \in Presets, sa \in BOOLEAN }
+ValidA == { r \in RowsA : (r.key # "rsa" => (r.openid /\ r.subject # "" /\ r.preset = "none" /\ ~r.session_aud)) }
 
 (* (B) offsets in ticks of auth_time relative to requested_at; max_age in ticks (0 = absent) *)
 \* 50: auth_time lies in the future (after "now"); 99: the session has no auth_time at all
